@@ -53,6 +53,7 @@ const (
 	ErrFuncFirstArgStr    = "first argument for function '%s' on type '%s' must be a STRING"
 	ErrFuncSecondArgInt   = "second argument for function '%s' on type '%s' must be an INTEGER"
 	ErrFuncSecondArgStr   = "second argument for function '%s' on type '%s' must be a STRING"
+	ErrFuncResultTooLarge = "the result of function '%s' on type '%s' would be too large"
 	ErrFuncMaxArgs        = "function '%s' on type '%s' accepts a maximum of '%d' arguments"
 
 	// Template errors
